@@ -101,7 +101,7 @@ def c11(case, det):
             return "KF-25"
     # KF-38: legacy analyzer: which node is "the target" for star expansion is picked by set iteration among the written-but-not-read
     # nodes (the real target and any anonymous WHERE sub-query), so a star over a derived table is expanded or not depending on the hash seed
-    if case.get("dialect") == "non-validating" and "*" in case["sql"] and feat["where_has_subquery"] and fields <= {"cyto_column", "column_paths"} | extra_fields:
+    if case.get("dialect") == "non-validating" and "*" in case["sql"] and (feat["where_has_subquery"] or feat["select_has_subquery"]) and fields <= {"cyto_column", "column_paths"} | extra_fields:
         ok = False
         for fld in ("column_paths", "column_paths_incl_subquery"):
             if fld in a:
@@ -140,7 +140,7 @@ def c07(case, diff, o, v):
         # KF-13 again: the nested run is the legacy analyzer, whose CAST(... AS type(n)) handling depends on letter case (KF-30b)
         if _feat(case)["select_has_subquery"] and _re.search(r"(?i)\bcast\s*\(", case.get("sql", "")) and _re.search(r"(?i)\bas\s+[a-z_]+\s*\(", case.get("sql", "")):
             return "KF-13"
-    if case.get("dialect") == "non-validating" and diff == ["column_pairs"] and "*" in case.get("sql", "") and _feat(case)["where_has_subquery"]:
+    if case.get("dialect") == "non-validating" and diff == ["column_pairs"] and "*" in case.get("sql", "") and (_feat(case)["where_has_subquery"] or _feat(case)["select_has_subquery"]):
         # KF-38: which node's star is expanded is picked by set iteration; the anonymous sub-query's hash follows its text, so any rewrite flips the coin
         def subq_star(pairs):
             return {c for p in pairs for c in p if c.endswith(".*") and c.count(".") == 1}
